@@ -176,7 +176,12 @@ def base_build(specs, logdir):
     t0 = time.time()
     st, out, secs, _ = run_capped(cmd, KANI_CRATE, 1800, 48, os.path.join(logdir, "build.log"))
     if st != "ok":
-        tail = "\n".join([l for l in out.splitlines() if l.startswith("error") or "-->" in l][:40])
+        lines = out.splitlines()
+        keep = []
+        for i, l in enumerate(lines):
+            if l.startswith("error"):
+                keep += lines[i:i + 6]
+        tail = "\n".join(keep[:60])
         log(f"BUILD-FAILED (status {st}) see {logdir}/build.log\n{tail}")
         return None, secs
     return base, secs
